@@ -127,7 +127,14 @@ def all_keys() -> list[TestKey]:
 
 
 def rsa_keys(bits: int | None = None, e: int | None = None) -> list[TestKey]:
-    return [k for k in all_keys() if k.kind == "rsa" and (bits is None or k.bits == bits) and (e is None or k.e == e)]
+    return [k for k in all_keys() if k.kind == "rsa" and not k.raw.get("topclear") and (bits is None or k.bits == bits) and (e is None or k.e == e)]
+
+
+def rsa_keys_topclear() -> list[TestKey]:
+    """RSA keys whose modulus has its most significant octet < 0x80 (1023 / 2047 / 3070 bits in 128 / 256 / 384 octets): the
+    modulus LENGTH in octets (what /repo calls the key size, and what the PKCS#1 block is padded to) is not bit_length // 8.
+    `bits` of these fixtures is 8 * octets, i.e. the value a configuration has to state."""
+    return [k for k in all_keys() if k.kind == "rsa" and k.raw.get("topclear")]
 
 
 def ec_keys(curve: str | None = None) -> list[TestKey]:
